@@ -202,7 +202,11 @@ func history(c *Ctx, j c56.Job, mode int) (viol string, digest string, skipped s
 		return v, digest, ""
 	}
 	// runs interleaved with another input: two live iterators of the same Code stepped alternately
-	other := c56.Alias(dec(c56.Inputs[(len(j.Program)+mode)%len(c56.Inputs)]), mode)
+	otherText := j.Other
+	if otherText == "" {
+		otherText = c56.Inputs[(len(j.Program)+mode)%len(c56.Inputs)]
+	}
+	other := c56.Alias(dec(otherText), mode)
 	ctx, cancel := context.WithTimeout(context.Background(), 3*time.Second)
 	defer cancel()
 	itA := cc.Code.RunWithContext(ctx, in.Value, vars...)
@@ -248,7 +252,37 @@ func history(c *Ctx, j c56.Job, mode int) (viol string, digest string, skipped s
 	if v = same("run 4 serialisation vs run 1", b1, bytesOf(r4)); v != "" {
 		return v, digest, ""
 	}
-	for _, rs := range [][]emitted{r1, r2, r3, ra, r4} {
+	// cold vs warm: what a Code yields on an input must not depend on what the Code ran before.
+	// run B on the warm Code (after all the runs on A), then A again; each is compared with a FRESH Code.
+	rbw, stb, _ := collect(cc, other.Value, vars, nil)
+	r5, st5, _ := collect(cc, in.Value, vars, nil)
+	if stb == "timeout" || st5 == "timeout" {
+		return "", digest, "timeout"
+	}
+	if v = same("run on A after a run on B (A, B, A' on one Code) vs run 1", snapsOf(r1), snapsOf(r5)); v != "" {
+		return v, digest, ""
+	}
+	for _, fresh := range []struct {
+		what string
+		text string
+		warm []emitted
+	}{{"input A", j.Input, r5}, {"input B", otherText, rbw}} {
+		cf, err := c56.Compile(j.Program, []string{"$v"})
+		if err != nil {
+			return "compile of the same program failed the second time: " + err.Error(), digest, ""
+		}
+		rc, stc, _ := collect(cf, dec(fresh.text), []any{dec(varText)}, nil)
+		if stc == "timeout" {
+			return "", digest, "timeout"
+		}
+		if v = same("warm Code (has run other inputs) vs FRESH Code on "+fresh.what, snapsOf(rc), snapsOf(fresh.warm)); v != "" {
+			return v, digest, ""
+		}
+		if v = same("warm Code vs FRESH Code serialisation on "+fresh.what, bytesOf(rc), bytesOf(fresh.warm)); v != "" {
+			return v, digest, ""
+		}
+	}
+	for _, rs := range [][]emitted{r1, r2, r3, ra, r4, r5} {
 		if v = recheck("at the end of the history", rs); v != "" {
 			return v, digest, ""
 		}
